@@ -148,7 +148,7 @@ func (rep *Report) nativePhase() error {
 		if len(cases) == 0 {
 			continue
 		}
-		results, log, err := runNative(rep.Repo, rep.Verif, pkg, runs[0].PkgName, fileList, rep.rewriteFn(pkg), cases, "")
+		results, log, err := runNative(rep.Repo, rep.Verif, pkg, runs[0].PkgName, fileList, rep.rewriteFn(pkg), rep.depPkgs(), cases, "")
 		rep.NativeLog += log
 		if err != nil {
 			return err
@@ -207,7 +207,7 @@ func (rep *Report) nativePhase() error {
 				os.RemoveAll(dir)
 				lab, m := violationLabel(&cv.Path)
 				c := []nativeCase{{ID: 0, Harness: r.Spec.Name, Inputs: m, Chooses: cv.Path.Chooses, Params: r.Params, Kind: "violation", Sched: cv.Path.Sched}}
-				runNative(rep.Repo, rep.Verif, pkg, r.PkgName, fileList, rep.rewriteFn(pkg), c, dir)
+				runNative(rep.Repo, rep.Verif, pkg, r.PkgName, fileList, rep.rewriteFn(pkg), rep.depPkgs(), c, dir)
 				mj, _ := json.MarshalIndent(map[string]interface{}{"property": rep.Spec.Property, "harness": r.Spec.Name, "tier": rep.Tier, "expected_label": lab, "engine_outcome": cv.Path.Outcome, "engine_msg": cv.Path.Msg, "inputs": m, "decisions": cv.Path.Decisions, "chooses": cv.Path.Chooses, "params": r.Params, "native": cv.Native}, "", " ")
 				os.WriteFile(filepath.Join(dir, "model.json"), mj, 0o644)
 				cv.Replay = dir
@@ -215,6 +215,16 @@ func (rep *Report) nativePhase() error {
 		}
 	}
 	return nil
+}
+
+func (rep *Report) depPkgs() []string {
+	var out []string
+	for _, d := range rep.Spec.Sched {
+		if strings.Contains(strings.SplitN(d, "/", 2)[0], ".") {
+			out = append(out, d)
+		}
+	}
+	return out
 }
 
 // rewriteFn builds the clock/schedule overlay; typed ASTs are consumed, so the packages are reloaded for each use.
